@@ -181,6 +181,58 @@ async def udp_outage(out, args, wd):
         U.kill()
 
 
+async def shared_quic(out, args, wd, oport):
+    """several tunnels share the quic connector's one connection: a request for an origin that is down fails (the upstream
+    proxy answers 503) - the tunnels to the healthy origin on the same connection must not notice"""
+    closed = free_port()
+    PB = {k: free_port() for k in ("quic", "api")}
+    PA = {k: free_port() for k in ("http", "api")}
+    B = Proxy(args.bin, base_cfg([{"name": "quic", "bind": "127.0.0.1:%d" % PB["quic"], "tls": tls_server()}], [{"name": "direct"}], [{"target": "direct"}], metrics_port=PB["api"]), "SQB", wd)
+    A = Proxy(args.bin, base_cfg([{"name": "http", "bind": "127.0.0.1:%d" % PA["http"]}],
+                                 [{"name": "q", "type": "quic", "server": "localhost", "port": PB["quic"], "tls": tls_client(), "bind": "127.0.0.1:0"}], [{"target": "q"}], metrics_port=PA["api"]), "SQA", wd)
+    from .lib import http_connect
+    held = []
+    try:
+        await B.start()
+        await A.start()
+        for rnd in range(3):
+            out.case()
+            c = await open_conn("127.0.0.1", PA["http"])
+            st, _ = await http_connect(c, "127.0.0.1", oport)
+            if st != 200:
+                out.violation("upstream unusable before any fault: q upstream (shared connection)", {"status": st, "round": rnd})
+                return
+            c.write(b"one")
+            await c.drain()
+            await c.read_exact(3, timeout=5)
+            held.append(c)
+            # a request through the same connector for an origin that refuses connections
+            d = await open_conn("127.0.0.1", PA["http"])
+            st2, _ = await http_connect(d, "127.0.0.1", closed)
+            d.close()
+            await asyncio.sleep(0.3)
+            ok = True
+            for k, h in enumerate(held):
+                try:
+                    h.write(b"still")
+                    await h.drain()
+                    if await h.read_exact(5, timeout=3) != b"still":
+                        ok = False
+                except Exception:
+                    ok = False
+            out.nontrivial(("q-shared", rnd, st2, ok))
+            if not ok:
+                out.violation("a tunnel to a healthy origin breaks when another request through the same quic connector fails",
+                              {"round": rnd, "status_of_the_failing_request": st2, "tunnels_held": len(held)})
+                return
+        out.sample({"scenario": "shared quic connection, one origin down", "rounds": 3, "healthy_tunnels_kept": len(held)})
+    finally:
+        for h in held:
+            h.close()
+        A.kill()
+        B.kill()
+
+
 async def main(args):
     from . import lib as _lib
     _lib.UNIQUE_SRC = True   # records are joined with connections by source port
@@ -474,7 +526,7 @@ async def main(args):
         await A.start()
         hs = asyncio.ensure_future(healthy_stream())
         await asyncio.sleep(0.3)
-        await asyncio.gather(*([run_scenario(s) for s in scen] + [udp_outage(out, args, wd)]))
+        await asyncio.gather(*([run_scenario(s) for s in scen] + [udp_outage(out, args, wd), shared_quic(out, args, wd, O.port)]))
         stop_healthy.set()
         await hs
         bad = [(round(t, 1), r, round(l, 2)) for (t, r, l) in healthy if r != "ok" or l > 2.0]
